@@ -37,7 +37,7 @@ def code_text(k):
 # ---------------------------------------------------------------- simulation: monitor
 
 def levels(case):
-    kids = case['kids']
+    kids = case.get('kids', [])
     lv = [[0]]
     while lv[-1]:
         lv.append([c for p in lv[-1] for c in kids[p]])
@@ -51,8 +51,8 @@ def sim_monitor(case):
         return 'the simulation panicked: %s' % case['crash']
     if case.get('timeout'):
         return 'the run did not terminate within %d events' % case['nevents']
-    fin = case['final']
-    kids = case['kids']
+    fin = case.get('final', [])
+    kids = case.get('kids', [])
     if case['unfinished'] != 0:
         return 'engine stopped with %d kernel(s) not reported finished' % case['unfinished']
     for u, st in enumerate(fin):
@@ -89,7 +89,7 @@ def sim_nontrivial(c):
     """at least two thread blocks and at least three warps were run to completion on a platform with >= 2 sub-cores"""
     blocks = sum(len(k) for k in c['kernels'])
     warps = sum(len(b) for k in c['kernels'] for b in k)
-    return blocks >= 2 and warps >= 3 and len(c['kids']) >= 5 and not c.get('timeout')
+    return blocks >= 2 and warps >= 3 and len(c.get('kids', [])) >= 5 and not c.get('timeout')
 
 
 def run_bin(binary, mode, cases=None, seed=1, n=10):
@@ -114,6 +114,13 @@ def shrink_sim(binary, case):
         out, _ = run_bin(binary, 'sim', cases=[sim_strip(c)])
         return bool(out) and sim_monitor(out[0]) is not None
     cur = sim_strip(case)
+    for key in ('via_files', 'file_style', 'name_len', 'inst_addrs'):   # drop what is not needed to fail
+        if cur.get(key):
+            c2 = {k: v for k, v in cur.items() if k != key}
+            if key == 'via_files':
+                c2 = {k: v for k, v in c2.items() if k not in ('file_style', 'name_len', 'inst_addrs')}
+            if fails(c2):
+                cur = c2
     ks = vlib.ddmin(cur['kernels'], lambda ks: fails(dict(cur, kernels=ks)), budget=30)
     cur = dict(cur, kernels=ks)
     for i in range(len(cur['kernels'])):
